@@ -241,6 +241,8 @@ std::string system_text(const Model& m)
     if (!m.system_raw.empty())
         return m.system_raw;
     std::ostringstream os;
+    for (auto& d : m.sys_decls)
+        os << d.text << "\n";
     for (auto& i : m.insts) {
         os << i.name;
         if (!i.free_params.empty())
@@ -561,7 +563,11 @@ std::string expected_summary(const Model& m, bool)
 {
     std::ostringstream os;
     os << "globals\n";
-    decl_summary(os, m.gdecls);
+    {
+        std::vector<MDecl> g = m.gdecls;
+        g.insert(g.end(), m.sys_decls.begin(), m.sys_decls.end());
+        decl_summary(os, g);
+    }
     for (auto& t : m.templs) {
         if (t.dynamic)
             continue;  // kept in the document's list of dynamic templates, not among the templates
@@ -570,7 +576,7 @@ std::string expected_summary(const Model& m, bool)
             os << "  param " << p.name << " " << (p.byref ? "ref" : "val") << " " << tagstr(p.tags) << "\n";
         decl_summary(os, t.decls);
         for (auto& l : t.locs)
-            os << "  loc " << l.docname() << " " << (l.urgent ? "U" : (l.committed ? "C" : "-")) << " inv=" << tagstr(l.inv.tags)
+            os << "  loc " << l.docname() << " " << (l.committed ? "C" : (l.urgent ? "U" : "-")) << " inv=" << tagstr(l.inv.tags)
                << " rate=" << tagstr(l.rate.tags) << "\n";
         for (auto& b : t.bps)
             os << "  bp " << b.docname() << "\n";
